@@ -206,6 +206,16 @@ func (a *Affiliation) computeTriggersForCastingSites(pass *analysishelper.Enhanc
 					// result list: a field may declare several results, e.g., `(a, b I)`.
 					if funcObj, ok := pass.TypesInfo.ObjectOf(f.Name).(*types.Func); ok {
 						results := funcObj.Type().(*types.Signature).Results()
+						// special case of forwarding the results of a call with multiple returns: e.g.,
+						// func f() (I, error) { return g() }, where g() returns (*S, error)
+						if len(node.Results) == 1 && results.Len() > 1 {
+							if rhsSig, ok := pass.TypesInfo.TypeOf(node.Results[0]).(*types.Tuple); ok && rhsSig.Len() == results.Len() {
+								for i := 0; i < results.Len(); i++ {
+									appendTypeToTypeTriggers(results.At(i).Type(), rhsSig.At(i).Type())
+								}
+								return true
+							}
+						}
 						for i := range node.Results {
 							if i < results.Len() {
 								lhsType := results.At(i).Type()
